@@ -43,9 +43,18 @@ MAIN = r"""
 static %(BT)s h[MAXB];
 static int stack[256]; static int sp = 0;          /* the driver's own idea of the buffer stack, to label tokens */
 static int g_autopop;
+static int g_incmode; static int inc[MAXB]; static int ninc = 0;   /* includes done with yy_switch_to_buffer: the program's own stack */
 /* include-style yywrap(): while a buffer lies below the exhausted one, pop and go on */
 int yywrap(%(WARG)s)
 {
+    if (g_incmode && ninc > 1) {
+        /* the other documented way: delete the exhausted buffer, then switch back to the including one */
+        int top = inc[ninc - 1];
+        yy_delete_buffer(h[top] %(S)s); h[top] = 0; ninc--;
+        yy_switch_to_buffer(h[inc[ninc - 1]] %(S)s);
+        g_cur = inc[ninc - 1]; if (sp == 0) sp = 1; stack[sp - 1] = g_cur;
+        return 0;
+    }
     if (g_autopop && sp > 1 && stack[sp - 1] >= 0 && stack[sp - 2] >= 0) {
         h[stack[sp - 1]] = 0; sp--;
         yypop_buffer_state(%(S1)s);
@@ -75,6 +84,7 @@ int main(int argc, char **argv)
         else if (op[0] == 'N') { long n; char *p; fscanf(ops, "%%511s", path); p = slurp(path, &n);     /* not terminated by two NULs */
             p[n] = 'x'; printf("N %%d\n", yy_scan_buffer(p, (size_t) n + 2 %(S)s) == NULL ? 1 : 0); free(p); }
         else if (op[0] == 'W') { fscanf(ops, "%%d", &id); yy_switch_to_buffer(h[id] %(S)s); if (sp == 0) sp = 1; stack[sp - 1] = id; }
+        else if (op[0] == 'I') { fscanf(ops, "%%d", &id); inc[ninc++] = id; yy_switch_to_buffer(h[id] %(S)s); if (sp == 0) sp = 1; stack[sp - 1] = id; }
         else if (op[0] == 'P') { fscanf(ops, "%%d", &id); yypush_buffer_state(h[id] %(S)s); if (sp > 0 && stack[sp - 1] < 0) stack[sp - 1] = id; else stack[sp++] = id; }
         else if (op[0] == 'O') { if (sp > 0) { int top = stack[sp - 1]; if (top >= 0) { h[top] = 0; if (mem[top]) { /* user memory outlives the buffer */ } } sp--; }
             yypop_buffer_state(%(S1)s); }
@@ -86,7 +96,7 @@ int main(int argc, char **argv)
             sp = 0; %(destroy)s
             for (i = 0; i < MAXB; i++) { if (mem[i]) free(mem[i]); mem[i] = 0; if (fh[i]) fclose(fh[i]); fh[i] = 0; }
             printf("X\n"); }
-        else if (op[0] == 'L' || op[0] == 'K') { fscanf(ops, "%%d", &k); g_autopop = (op[0] == 'K');
+        else if (op[0] == 'L' || op[0] == 'K' || op[0] == 'M') { fscanf(ops, "%%d", &k); g_autopop = (op[0] == 'K'); g_incmode = (op[0] == 'M');
             for (i = 0; i < k; i++) { g_cur = sp > 0 ? stack[sp - 1] : -1; v = yylex(%(S1)s); if (v == 0) { printf("Z %%d\n", g_cur); break; } } }
     }
     for (i = 0; i < MAXB; i++) { int j, onstack = 0; for (j = 0; j < sp; j++) if (stack[j] == i) onstack = 1;
@@ -273,6 +283,22 @@ def gen_tower(rng, prog, height):
     return ops, files
 
 
+def gen_include_tower(rng, prog, height):
+    """Nested includes done the other documented way: yy_switch_to_buffer into the included file, and a yywrap() that deletes the
+    exhausted buffer and switches back to the including one (the buffer stack of the scanner stays one deep).  The model
+    runs the push / pop twin of the history: both ways of including must give the same tokens."""
+    import rulesets
+    files, ops = [], []
+    for i in range(height):
+        files.append(rulesets.gen_inputs(prog, rng.fork("i%d" % i), count=1, maxlen=rng.pick([8, 20, 40]))[0])
+        ops.append(('C', i, i, 16384))
+    for i in range(height):
+        ops.append(('I', i))
+        ops.append(('L', rng.pick([1, 1, 2, 3])))
+    ops.append(('M', 400))
+    return ops, files
+
+
 def ops_text(ops, workdir):
     lines = []
     for o in ops:
@@ -282,7 +308,7 @@ def ops_text(ops, workdir):
             lines.append("%s %d %s" % (o[0], o[1], os.path.join(workdir, "f%d.bin" % o[2])))
         elif o[0] == 'N':
             lines.append("N %s" % os.path.join(workdir, "f%d.bin" % o[1]))
-        elif o[0] in ('W', 'P', 'F', 'D', 'L', 'K'):
+        elif o[0] in ('W', 'P', 'F', 'D', 'L', 'K', 'I', 'M'):
             lines.append("%s %d" % (o[0], o[1]))
         elif o[0] == 'X':
             lines.append("X")
@@ -300,7 +326,7 @@ def ops_sx(ops, files):
             out.append("(scan %d (%s))" % (o[1], " ".join(str(b) for b in files[o[2]])))
         elif o[0] == 'W':
             out.append("(switch %d)" % o[1])
-        elif o[0] == 'P':
+        elif o[0] in ('P', 'I'):
             out.append("(push %d)" % o[1])
         elif o[0] == 'O':
             out.append("(pop)")
@@ -310,7 +336,7 @@ def ops_sx(ops, files):
             out.append("(delete %d)" % o[1])
         elif o[0] == 'L':
             out.append("(lex %d)" % o[1])
-        elif o[0] == 'K':
+        elif o[0] in ('K', 'M'):
             out.append("(lexpop %d)" % o[1])
     return "(" + " ".join(out) + ")"
 
